@@ -198,7 +198,8 @@ fn part_bdd(ctx: &mut Ctx, cfg: &Cfg, rep: &mut Report, rng: &mut Rng, hooks: bo
         }
     }
     // grid (op, thread count), sharded by index; plus perturbed repetitions
-    let scheds = if tsan_small { 2u64 } else { cfg.budget(2, 40).max(1) };
+    // perturbed repetitions per grid point (per shard: the grid itself is sharded)
+    let scheds = if tsan_small { 2u64 } else if cfg.thorough { (24.0 * cfg.scale).ceil().max(1.0) as u64 } else { 1 };
     let mut idx = 0u64;
     let stride = (1.0 / sc).round().max(1.0) as u64; // slower backends take every stride-th grid point
     for op in OPS {
@@ -331,7 +332,7 @@ fn part_prepare<T: UnsignedInteger + ToBits + FromBits>(ctx: &mut Ctx, cfg: &Cfg
             refs.insert((start, len), prepared_bytes(&p));
         }
         let refb = &refs[&(start, len)];
-        let scheds: u64 = if start == 0 && len == bits { if tsan_small { 1 } else { cfg.budget(1, 20) } } else { 1 };
+        let scheds: u64 = if start == 0 && len == bits { if tsan_small { 1 } else if cfg.thorough { (16.0 * cfg.scale).ceil().max(1.0) as u64 } else { 1 } } else if cfg.thorough { 4 } else { 1 };
         for rep_i in 0..=scheds {
             let sched = if rep_i == 0 || !hooks { 0 } else { rng.next_u64() | 1 };
             if rep_i > 0 && !hooks {
